@@ -112,6 +112,9 @@ def cases(tier, seed):
             for sparse in (False, True):
                 out.append({"kind": "lm", "problem": name, "sparse": sparse, "gradtol": rg.choice([1e-6, 1e-8, 1e-10]),
                             "nu0": rg.choice([1e-3, 1e-1]), "scale": rg.choice([0.03, 1.0, 1.0, 20.0]), "rep": rep})
+    for rep in range(1 if quick else 3):
+        for name in R.NLS_NAMES:
+            out.append({"kind": "lm", "problem": name, "sparse": bool(rep % 2), "gradtol": 1e-8, "nu0": 1e-3, "scale": 1.0, "warm": True, "rep": rep})
     for sparse in (False, True):
         out.append({"kind": "lm_explicit", "sparse": sparse})
     # ---- scipy wrappers
@@ -488,6 +491,12 @@ def _run_lm(case, ctx):
         return pb.r(np.asarray(x, dtype=float))
     Jf = (lambda x: sps.csr_matrix(pb.J(np.asarray(x, dtype=float)))) if case["sparse"] else (lambda x: pb.J(np.asarray(x, dtype=float)))
     x0 = pb.x0.copy()
+    if case.get("warm"):
+        # start within 1e-9 of a minimiser (found by scipy, trusted): a legitimate input of an iterative solver
+        import scipy.optimize as so
+        ref = so.least_squares(pb.r, x0, jac=pb.J, method="trf", xtol=1e-15, ftol=1e-15, gtol=1e-15, max_nfev=5000)
+        x0 = np.asarray(ref.x, dtype=float) + 1e-9 * rs.standard_normal(pb.n)
+        cfg["start"] = "warm"
     x, info = LM(rfun, x0.copy(), Jf, maxit=maxit, gradtol=gradtol, nu0=float(case["nu0"]), sparse=case["sparse"]).solve()
     x = np.asarray(x, dtype=float).ravel()
     nfev = int(info["nfev"])
@@ -500,8 +509,9 @@ def _run_lm(case, ctx):
         # LM keeps the evaluated point with the smallest sum of squares (steps are accepted iff they do not increase it)
         kept = min(fin, key=lambda e: _norm(pb.r(e))) if fin else None
         best = _norm(pb.J(kept).T @ pb.r(kept)) / g0_ if kept is not None else np.inf
+        stat = kept is not None and _norm(pb.J(kept).T @ pb.r(kept)) <= 1e-7 * np.linalg.norm(pb.J(kept), 2) * _norm(pb.r(x0))
         ctx.count("lm_nonfinite_return")
-        ctx.violation("nonfinite_solution", dict(cfg, gradtol_attained=bool(best <= gradtol), kept_point_stationary=bool(best <= 1e-6),
+        ctx.violation("nonfinite_solution", dict(cfg, gradtol_attained=bool(best <= gradtol), kept_point_stationary=bool(stat),
                                                  stopped_before_maxit=bool(nfev < maxit)),
                       detail=f"{pb.name}: LM returned {x.tolist()} after {nfev} iterations (maxit {maxit}); the evaluated point with the smallest sum of squares has "
                              f"||J^T r||/||J0^T r0|| = {best:.3e}, gradtol = {gradtol}")
@@ -521,7 +531,7 @@ def _run_lm(case, ctx):
     ctx.count("lm_trace_checked")
     if not any(np.array_equal(x, e) for e in evals):
         ctx.violation("lm_returned_point_not_evaluated", cfg, detail="returned x is not among the points at which the residual was evaluated")
-    if nfev > 0:
+    if nfev > 0 and not case.get("warm"):
         ctx.nontrivial()
 
 # --------------------------------------------------------------------------- scipy wrappers
